@@ -137,7 +137,7 @@ func run(c *hlib.Ctx) *hlib.Run {
 
 	rep := sim.Run(func() {
 		// ---- world ---------------------------------------------------------
-		threshold := []float64{0.7, 0.75, 0.8, 0.8, 0.9, 1.0}[s.Draw(6, "threshold")]
+		threshold := []float64{0.7, 0.75, 0.8, 0.8, 0.9, 1.0, 0.5, 0.85, 0.95}[s.Draw(9, "threshold")]
 		var idx []int
 		full := s.Draw(12, "full-corpus") == 0
 		if full {
@@ -216,6 +216,24 @@ func run(c *hlib.Ctx) *hlib.Run {
 			}
 			insts = append(insts, build(s.Perm(len(world), "insertion-perm"), extra, fmt.Sprintf("permuted+%d-unrelated", len(extra))))
 		}
+		if !full && s.Draw(4, "instance-from-directory") == 0 {
+			// a separately built instance populated through LoadLicenses
+			if dir, err := os.MkdirTemp("", "verif-c04-corpus-"); err == nil {
+				okDir := true
+				for _, d := range world {
+					pth := filepath.Join(dir, d.Category, d.Name)
+					if os.MkdirAll(pth, 0o755) != nil || os.WriteFile(filepath.Join(pth, d.Variant), d.Data, 0o644) != nil {
+						okDir = false
+					}
+				}
+				cl := classifier.NewClassifier(threshold)
+				if okDir && cl.LoadLicenses(dir) == nil {
+					insts = append(insts, instance{"loaded-from-directory", cl})
+					out.Counters["instances_loaded_from_directory"]++
+				}
+				os.RemoveAll(dir)
+			}
+		}
 		tr("world: %d documents, threshold %v, %d instances, shuffle_maps=%v", len(world), threshold, len(insts), cfg.ShuffleMaps)
 
 		// ---- inputs --------------------------------------------------------
@@ -266,12 +284,13 @@ func run(c *hlib.Ctx) *hlib.Run {
 			from       string
 		}
 		var retained []retainedOut
+		extraN := 0
 		cur := 0
 		traceOn := "off"
 		nops := 5 + s.Draw(36, "n-ops")
 		var hist []string
 		for op := 0; op < nops && viol == nil; op++ {
-			kind := s.Pick([]int{8, 4, 3, 2, 3, 1, 1}, "op")
+			kind := s.Pick([]int{8, 4, 3, 2, 3, 1, 1, 1, 1}, "op")
 			switch kind {
 			case 0, 1: // Match / MatchFrom
 				ii := s.Draw(nin, "input")
@@ -369,6 +388,19 @@ func run(c *hlib.Ctx) *hlib.Run {
 				out.Counters["op_decoy_instance"]++
 				hist = append(hist, fmt.Sprintf("decoy-instance(threshold %v)", other))
 				tr("op %d: built and used an unrelated instance with threshold %v", op, other)
+			case 7: // the corpus grows by an unrelated document between calls
+				extraN++
+				d := unrelatedDoc(s, 100+extraN)
+				insts[cur].c.AddContent(d.Category, d.Name, d.Variant, append([]byte(nil), d.Data...))
+				out.Counters["op_AddContent_unrelated"]++
+				hist = append(hist, "AddContent(unrelated)@"+insts[cur].name)
+				tr("op %d: AddContent of an unrelated document on %s", op, insts[cur].name)
+			case 8: // a document that is already in the corpus is added again, unchanged
+				d := world[s.Draw(len(world), "re-add")]
+				insts[cur].c.AddContent(d.Category, d.Name, d.Variant, append([]byte(nil), d.Data...))
+				out.Counters["op_AddContent_again"]++
+				hist = append(hist, "AddContent(again:"+d.Key()+")@"+insts[cur].name)
+				tr("op %d: AddContent of %s again on %s", op, d.Key(), insts[cur].name)
 			case 4: // switch instance
 				cur = s.Draw(len(insts), "instance")
 				traceOn = "?"
